@@ -1282,8 +1282,8 @@ def ids_family(run, replay=None):
         if thorough:
             words = sample(words, 60000, run.seed)
         attacks = []
-        for g in ["duplicate_rejected", "iid_counter_starts_at_one", "automatic_id_skips_taken"]:
-            a = run.generate('IdsMC', cfgtext='CONSTANTS\n  MaxAcc = 3\n  Explicit = {0, 1, 2, 3}\n  Shapes <- ShapesDef\n  Weak = %s\nINIT Init\nNEXT Next\nINVARIANT NoAttack\nCHECK_DEADLOCK FALSE\n' % tla_set([g]), expect_violation=True)
+        for g in ["duplicate_rejected", "iid_counter_starts_at_one", "automatic_id_skips_taken", "remove_by_identity"]:
+            a = run.generate('IdsMC', cfgtext='CONSTANTS\n  MaxAcc = 4\n  Explicit = {0, 1, 2, 3}\n  Shapes <- ShapesDef\n  Weak = %s\nINIT Init\nNEXT Next\nINVARIANT NoAttack\nCHECK_DEADLOCK FALSE\n' % tla_set([g]), expect_violation=True)
             if not a:
                 raise ToolTrouble('no attack word for guard %s' % g)
             attacks.append((g, [{k: v for k, v in s.items() if k != 'accepted'} for s in a[0]]))
@@ -1300,7 +1300,7 @@ def ids_family(run, replay=None):
                           rule_text='every construction word of up to 3 (thorough 4) accessories over explicit ids 0..3 and 5 service shapes (an initial-state-free enumeration by TLC), executed with real accessory / service / characteristic objects; every accessory constructor of the library substituted for the abstract accessories in turn; each container built twice; distinct = construction word; non-trivial = at least two accessories or an explicit id',
                           nontrivial=lambda b: len(b['steps']) >= 2 or any(s.get('explicit') for s in b['steps']), extra_cov=extra,
                           pseudo=[dict(id=3000000 + k, kind='library-constructor', steps=[dict(explicit=0, shape=[])]) for k in range(64)] + [dict(id=3999999, kind='library-constructors-all', steps=[dict(explicit=0, shape=[2])])],
-                          fpfun=lambda rule, b, line: '%s/%s' % (rule, 'library-constructors' if line.get('variant', -1) >= 0 else 'explicit=%s' % ','.join(str(s.get('explicit')) for s in b['steps'][:4])))
+                          fpfun=lambda rule, b, line: '%s/%s' % (rule, 'library-constructors' if line.get('variant', -1) >= 0 else 'explicit=%s' % ','.join(('' if s.get('op', 'add') == 'add' else s.get('op') + ':') + str(s.get('explicit')) for s in b['steps'][:4])))
 
 
 # =====================================================================================================
